@@ -13,6 +13,7 @@ import (
 	"hash/crc64"
 	"hash/fnv"
 	"math/rand"
+	"sync"
 	"testing"
 
 	"github.com/gagliardetto/solana-go"
@@ -449,5 +450,74 @@ func TestVerifC14Server(t *testing.T) {
 			}
 			out.Emit(o)
 		}
+	}
+}
+
+// TestVerifC14Concurrent: different intact payloads reassembled by several goroutines at once (as concurrent requests and the
+// StreamTransactions workers do): every reassembly must still give the original bytes. One record per payload shape with
+// the worst outcome seen.
+func TestVerifC14Concurrent(t *testing.T) {
+	out := vt.Out(t)
+	defer out.Close()
+	rng := rand.New(rand.NewSource(vt.Seed() + 1414))
+	type shape struct {
+		n, fan   int
+		checksum string
+	}
+	shapes := []shape{{1, 1, "crc64"}, {3, 2, "crc64"}, {7, 5, "crc64"}, {12, 5, "crc64"}, {5, 2, "fnv"}, {24, 10, "crc64"}, {2, 1, "crc64"}, {9, 3, "crc64"}}
+	rounds := 1500
+	if !vt.Quick() {
+		rounds = 8000
+	}
+	type built struct {
+		payload []byte
+		ch      *c14chain
+	}
+	var items []built
+	for _, s := range shapes {
+		payload := make([]byte, 200+rng.Intn(4000))
+		rng.Read(payload)
+		items = append(items, built{payload, c14build(payload, s.n, s.fan, s.checksum)})
+	}
+	results := make([]c14Obs, len(shapes))
+	var wg sync.WaitGroup
+	for k := range shapes {
+		wg.Add(1)
+		go func(k int) {
+			defer wg.Done()
+			it, s := items[k], shapes[k]
+			o := c14Obs{Case: 1, N: s.n, Fan: s.fan, Fault: map[string]any{"kind": "none", "i": 0, "j": 0}, Checksum: s.checksum, Side: "raw", Size: len(it.payload),
+				Via: "tooling.LoadDataFromDataFrames/concurrent", Outcome: "original"}
+			getter := func(ctx context.Context, c cid.Cid) (*ipldbindcode.DataFrame, error) {
+				f := it.ch.store[c.KeyString()]
+				if f == nil {
+					return nil, fmt.Errorf("frame %s not found", c)
+				}
+				f2 := *f
+				return &f2, nil
+			}
+			for r := 0; r < rounds && o.Outcome == "original"; r++ {
+				first := it.ch.first
+				var got []byte
+				var err error
+				p := vt.Guard(func() { got, err = tooling.LoadDataFromDataFrames(&first, getter) })
+				switch {
+				case p != "":
+					o.Outcome, o.Detail = "panic", p
+				case err != nil:
+					o.Outcome, o.Detail = "error", fmt.Sprintf("reassembly %d of %d while %d other payloads are being reassembled: %v", r+1, rounds, len(shapes)-1, err)
+				case !bytes.Equal(got, it.payload):
+					o.Outcome = "different"
+				}
+			}
+			if len(o.Detail) > 200 {
+				o.Detail = o.Detail[:200]
+			}
+			results[k] = o
+		}(k)
+	}
+	wg.Wait()
+	for _, o := range results {
+		out.Emit(o)
 	}
 }
